@@ -50,6 +50,60 @@ def edge_view(d: Dict[str, Any], cut_instant: float, closed_before_year: int) ->
     }
 
 
+def label_problems(rows: Sequence[Dict[str, Any]]) -> Optional[str]:
+    """'k of n' labels recomputed from the fraction list itself: k counts the fractions of the same taxable event / of the same
+    lot so far (in the list's order), n is their total number."""
+    ev_total: Dict[Any, int] = {}
+    lot_total: Dict[Any, int] = {}
+    for r in rows:
+        ev_total[r["event"]] = ev_total.get(r["event"], 0) + 1
+        if r["lot"] is not None:
+            lot_total[r["lot"]] = lot_total.get(r["lot"], 0) + 1
+    ev_seen: Dict[Any, int] = {}
+    lot_seen: Dict[Any, int] = {}
+    for r in rows:
+        ev_seen[r["event"]] = ev_seen.get(r["event"], 0) + 1
+        if (r["event_k"], r["event_n"]) != (ev_seen[r["event"]], ev_total[r["event"]]):
+            return f"fraction (event row {r['event']}, lot row {r['lot']}) is labelled {r['event_k']}/{r['event_n']} of its event; it is fraction {ev_seen[r['event']]} of {ev_total[r['event']]}"
+        if r["lot"] is not None:
+            lot_seen[r["lot"]] = lot_seen.get(r["lot"], 0) + 1
+            if (r["lot_k"], r["lot_n"]) != (lot_seen[r["lot"]], lot_total[r["lot"]]):
+                return f"fraction (event row {r['event']}, lot row {r['lot']}) is labelled {r['lot_k']}/{r['lot_n']} of its lot; it is fraction {lot_seen[r['lot']]} of {lot_total[r['lot']]}"
+    return None
+
+
+def long_tail_histories() -> List[History]:
+    """Few lots, MANY small disposals, then a lot the method would prefer, then one more disposal: bookkeeping that only
+    kicks in after many seeks (heap compaction, caches) must still not see the future. A bounded family, enumerated in full."""
+    out: List[History] = []
+    from rp2verif.lottree import balance_track
+
+    for lots in (((H.B(2, 12), "="),), ((H.B(2, 6), "="), (H.B(1, 6), "d")), ((H.B(1, 4), "="), (H.B(3, 4), "d"), (H.B(2, 4), "d"))):
+        for n in range(3, 15):
+            sells = tuple((H.S(1) if i % 4 else H.S(1, typ="GIFT"), "d") for i in range(min(n, 9)))
+            if n > 9:
+                sells = sells + tuple((H.M(2, "1/4"), "d") for _ in range(n - 9))
+            for late in (H.B(3, 2), H.B(1, 2)):
+                hist = lots + sells + ((late, "y"), (H.S(1), "d"))
+                assert not balance_track(hist)[0], hist
+                out.append(hist)
+    return out
+
+
+def long_tail_worker(chunk: List[History]) -> Stats:
+    st = Stats()
+    runner = Runner()
+    from rp2verif.lotrun import single_schedules, two_year_schedules
+
+    for hist in chunk:
+        specs = H.materialize(hist)
+        if specs is None:
+            continue
+        for sch in single_schedules() + two_year_schedules()[:4]:
+            judge_node(st, runner, hist, specs, sch, only_cut=len(hist) - 2)
+    return st
+
+
 class Runner:
     """Runs of prefixes are shared along a depth-first walk (a prefix is the truncation of all its extensions)."""
 
@@ -81,6 +135,9 @@ def judge_node(st: Stats, runner: Runner, hist: History, specs: List[Dict[str, A
                           what=f"{sched_str(sch)}: {H.hist_str(hist)} :: {type(full.error).__name__}: {full.error}"))
         return
     D = C.dump(full.computed)
+    lp = label_problems(D["detail"])
+    if lp:
+        st.violation(dict(base, signature="C09 fraction labels", what=f"{sched_str(sch)}: {H.hist_str(hist)} :: {lp}"))
     ts = [parse_ts(s["timestamp"]) for s in specs]
     order = sorted(range(len(specs)), key=lambda i: ts[i])
     chron = [specs[i] for i in order]
@@ -194,6 +251,15 @@ def main(tier: str, budget_s: Optional[float] = None) -> int:
         total.merge(t)
         info += i
         complete = complete and c
+    lt = long_tail_histories()
+    nlt = max(1, min(len(lt), common.NPROC * 2))
+    lres, ldone = common.pmap(long_tail_worker, [lt[i::nlt] for i in range(nlt)], deadline=deadline)
+    for r in lres:
+        if r is not None:
+            total.merge(r)
+    complete = complete and ldone == nlt
+    info.append({"phase": "long tail: 1-3 lots, 3..14 small disposals, a preferred late lot, one more disposal (cut before the late lot)", "histories": len(lt), "schedules": 8,
+                 "chunks_done": ldone, "chunks": nlt})
     new, matched = common.report(PROP, total.violations)
     coverage = {
         "states": total.get("states"),
@@ -207,7 +273,8 @@ def main(tier: str, budget_s: Optional[float] = None) -> int:
             "with the cut between two distinct timestamps; per transition the run of the whole history is compared with the run of the history "
             "truncated at the cut (events <= cut: pairing, amounts, proceeds, cost, gain, long/short, k/n, closed years) and, when the cut "
             "separates two calendar days, the run limited by to_date with the truncated run on the complete canonical dump. non-trivial = "
-            "a lot is acquired after the cut while some disposal at or before the cut consumed a lot (a peeking matcher would be tempted); "
+            "a lot is acquired after the cut while some disposal at or before the cut consumed a lot (a peeking matcher would be tempted); on every node "
+            "the 'k of n' labels of all fractions are also recomputed from the fraction list; "
             "(node, cut) pairs are distinct by construction"
         ),
         "alphabet": [H.sym_str(s) for s in SYMBOLS],
